@@ -66,6 +66,12 @@ PROP_ASSUMPTIONS = {
         "Model/LineColumn.lean hand-written from SourceFile::get_line_column; bytes modelled as characters with utf8Size prefix sums",
         "ast/from_cst.rs location attachment is not modelled; checked on the implementation",
     ],
+    "C21": [
+        "Model/Guards.lean hand-written from validation/mod.rs (DepthCounter, DepthGuard, RecursionStack, DiagnosticList::sort) and validation/fragment.rs (detect_fragment_cycles)",
+        "slice::sort_by_key is a stable sort (std documentation); modelled by List.mergeSort",
+        "the HashSet `seen` of detect_fragment_cycles is modelled as a list (membership only)",
+        "fragment definitions are validated once each when spread directly from the operation (harness spreads every fragment at the top level)",
+    ],
     "C16": [
         "Model/BuiltinScalars.lean hand-written from schema/validation.rs; IndexMap = association list, HashSet iteration = arbitrary permutation",
         "type references are exported by the harness from fields, arguments, input fields and directive definition arguments (what record_type_ref sees)",
